@@ -148,7 +148,12 @@ def check_interior(n, k, s, path):
         # the only text such a group may hold outside its children is the separators of those empty elements
         comma_list = all(canon.kind(c) == 'group' and c.delimiters is not None and c.delimiters[0] == '' for c in body)
         cur = lo
+        # an embellishment (marker character + its argument) is reported as a group with delimiters (marker, ''): blanks
+        # and comments between the marker and the argument belong to the call, as between any call and its argument
+        marker_group = (d[1] == '' and d[0] != '')
         for c in body:
+            if marker_group and c.pos > cur and only_blank_or_comments(s[cur:c.pos]):
+                cur = c.pos
             if c.pos != cur and not (comma_list and c.pos > cur and set(s[cur:c.pos]) <= set(',')):
                 return '%s: %s body is not contiguous: child at %d, expected %d (covers %r)' % (
                     path, k, c.pos, cur, s[n.pos:n.pos_end])
